@@ -1,29 +1,28 @@
-SPECIFICATION ReapSpec
+SPECIFICATION CatSpec
 CONSTANTS
   IgnoreTmp = TRUE
   OrderTermIndexId = TRUE
   GateIncOnFullNeeded = TRUE
-  GateAtClose = TRUE
+  GateAtClose = FALSE
   ClearOnSuccessOnly = TRUE
   PlanBeforeMutation = TRUE
-  ResumeOnOpen = FALSE
+  ResumeOnOpen = TRUE
   IdempotentOps = TRUE
   LeftoverWALFirst = TRUE
   LastOpDoneShortcut = TRUE
   TmpCleanAfterResume = TRUE
-  Sinks = {s1}
-  MaxId = 0
-  MaxWal = 8
+  Sinks = {"s1", "s2"}
+  MaxId = 3
+  MaxWal = 2
   MaxTerm = 2
-  MaxIdx = 2
+  MaxIdx = 1
   GenDepth = 14
   AtomicClose = TRUE
-  OlderSel = {0, 2}
-  MaxFullWals = 1
-  MaxIncs = 2
-  MaxIncWals = 2
-  TmpSel = {TRUE}
-  MaxCrashes = 2
-INVARIANTS NoFailure Recovered NoTmpLeft
-VIEW ReapView
-ALIAS ReapAlias
+  OlderSel = {0}
+  MaxFullWals = 0
+  MaxIncs = 0
+  MaxIncWals = 1
+  TmpSel = {FALSE}
+  MaxCrashes = 0
+INVARIANTS EmitHist
+VIEW GenView
